@@ -57,6 +57,12 @@ def add_second_gene(w, reads, delta):
         b = [list(x) for x in base]
         b[3][1] += sh
         variants.append((("g2-jitter", 3, 0, sh), b))
+    # a third gene with an annotated 5-bp intron (11201-11205) and reads whose 5-bp gap lies up to delta bases beside it
+    w["genes"].append({"id": "G3", "chr": "chr1", "strand": "+", "transcripts": [
+        {"id": "V1", "exons": [[10501, 10700], [11001, 11200], [11206, 11400]]}]})
+    syn.plant_for_transcripts(w)
+    for sh in (-delta, -3, 3, delta):
+        variants.append((("g3-tiny-intron", sh), [[10551, 10700], [11001, 11200 + sh], [11206 + sh, 11400]]))
     for k, (dev, b) in enumerate(variants):
         nm = "u%d" % k
         rd = {"name": nm, "chr": "chr1", "blocks": [list(x) for x in b], "clip_right": "A" * 30}
@@ -309,7 +315,8 @@ def pipeline_case(args):
                    "T2": [(E[T2[i]][1] + 1, E[T2[i + 1]][0] - 1) for i in range(len(T2) - 1)],
                    "T3": [(E[T3[i]][1] + 1, E[T3[i + 1]][0] - 1) for i in range(len(T3) - 1)],
                    "U1": [(F[U1[i]][1] + 1, F[U1[i + 1]][0] - 1) for i in range(len(U1) - 1)],
-                   "U2": [(F[U2[i]][1] + 1, F[U2[i + 1]][0] - 1) for i in range(len(U2) - 1)]}
+                   "U2": [(F[U2[i]][1] + 1, F[U2[i + 1]][0] - 1) for i in range(len(U2) - 1)],
+                   "V1": [(10701, 11000), (11201, 11205)]}
     annotated_sites_l = set(i[0] for v in iso_introns.values() for i in v)
     annotated_sites_r = set(i[1] for v in iso_introns.values() for i in v)
     changed = 0
